@@ -220,6 +220,14 @@ pub fn parse_line(line: &str) -> LineInfo {
             continue;
         }
 
+        if semi_ok && sep == "`" && c != ' ' && c != '|' && c != '\'' && c != '"' && c != '`' {
+            // the word goes on after the closing backquote, e.g.
+            // `brew --prefix openssl`/include
+            token = format!("`{}`", token);
+            sep = String::new();
+            semi_ok = false;
+        }
+
         if has_backslash && sep.is_empty() &&
                 (c == '>' || c == '<' || c == '*' || c == '~' || c == '&' || c == '{' || c == '`' ||
                  (c == '$' && !token.is_empty())) {
